@@ -161,9 +161,51 @@ package resource
 //@ func (IDQuery).Matches
 //@   trusted
 //@   pure
-//@ func (LabelQueries).Matches
-//@   trusted
+// C14: one selector semantics. termHolds / queryHolds are the specification functions; Labels.Matches
+// and LabelQuery.Matches are tied to them by definitional clauses (they are the semantics), and the
+// clauses below pin the semantics down operator by operator: existence, equality, set membership,
+// lexical comparison, inversion, missing labels, empty value lists; AND within a query, OR across
+// queries, the empty query and the empty list of queries match everything.
+//@ fn termHolds(l Labels, t LabelTerm) bool
+//@ fn queryHolds(l Labels, q LabelQuery) bool
+//@
+// (an operator outside the enumeration makes Matches panic by design: may_panic; the map model does not
+// relate len(m) == 0 to the key domain, hence the one assumption)
+//@ func (Labels).Matches
+//@   props C14
 //@   pure
+//@   may_panic
+//@   assume [empty-map-has-no-keys] len(labels.KV.m) == 0 ==> !in(term.Key, labels.KV.m)
+//@   ensures [def-term] result == termHolds(labels, term)
+//@   ensures [exists] term.Op == 0 ==> (result <==> (in(term.Key, labels.KV.m) != term.Invert))
+//@   ensures [missing-label] !in(term.Key, labels.KV.m) && term.Op >= 1 && term.Op <= 2 ==> result == term.Invert
+//@   ensures [missing-label-never-compares] !in(term.Key, labels.KV.m) && term.Op >= 3 && term.Op <= 6 ==> !result
+//@   ensures [empty-value-list] in(term.Key, labels.KV.m) && term.Op >= 1 && term.Op <= 6 && len(term.Value) == 0 ==> result == term.Invert
+//@   ensures [equal] in(term.Key, labels.KV.m) && term.Op == 1 && len(term.Value) > 0 ==> (result <==> ((labels.KV.m[term.Key] == term.Value[0]) != term.Invert))
+//@   ensures [in-set] in(term.Key, labels.KV.m) && term.Op == 2 && len(term.Value) > 0 ==>
+//@     (result <==> ((exists i int :: 0 <= i && i < len(term.Value) && term.Value[i] == labels.KV.m[term.Key]) != term.Invert))
+//@   ensures [less-than] in(term.Key, labels.KV.m) && term.Op == 3 && len(term.Value) > 0 ==> (result <==> ((labels.KV.m[term.Key] < term.Value[0]) != term.Invert))
+//@   ensures [less-or-equal] in(term.Key, labels.KV.m) && term.Op == 4 && len(term.Value) > 0 ==> (result <==> ((labels.KV.m[term.Key] <= term.Value[0]) != term.Invert))
+//@
+//@ func (Labels).matches
+//@   inline
+//@ func (LabelOp).isComparison
+//@   inline
+//@
+//@ func (LabelQuery).Matches
+//@   props C14
+//@   pure
+//@   ensures [def-query] result == queryHolds(labels, query)
+//@   ensures [and-of-terms] result <==> (forall i int :: 0 <= i && i < len(query.Terms) ==> termHolds(labels, query.Terms[i]))
+//@   loop #1
+//@     invariant [terms-so-far] forall i int :: 0 <= i && i <= rangeindex ==> termHolds(labels, query.Terms[i])
+//@
+//@ func (LabelQueries).Matches
+//@   props C14
+//@   pure
+//@   ensures [or-of-queries] result <==> (len(queries) == 0 || (exists q int :: 0 <= q && q < len(queries) && queryHolds(labels, queries[q])))
+//@   loop #1
+//@     invariant [none-so-far] forall q int :: 0 <= q && q <= rangeindex ==> !queryHolds(labels, queries[q])
 
 // Identity of what a pointer / kind / reference value denotes.
 //@ fn nsOf(p Kind) string
